@@ -148,11 +148,19 @@ func (w *World) ClientTLS() *tls.Config {
 
 // Listen starts the in-tree server on the world's server address.
 func (w *World) Listen(tlsConf *tls.Config, conf *quic.Config) (*quic.Listener, error) {
+	return w.ListenWith(tlsConf, conf, nil)
+}
+
+// ListenWith is Listen with a hook that may set Transport options before first use.
+func (w *World) ListenWith(tlsConf *tls.Config, conf *quic.Config, setup func(*quic.Transport)) (*quic.Listener, error) {
 	if w.ServerConn == nil {
 		w.ServerConn = simnet.NewBlockingSimConn(w.ServerAddr, w.Router)
 	}
 	if w.ServerTr == nil {
 		w.ServerTr = &quic.Transport{Conn: w.ServerConn}
+		if setup != nil {
+			setup(w.ServerTr)
+		}
 	}
 	ln, err := w.ServerTr.Listen(tlsConf, conf)
 	if err != nil {
